@@ -418,9 +418,14 @@ def run_greenback(req):
         if mine != lv:
             obs.append({"kind": "bridge_chain", "tag": tag, "got": [f.f_code.co_name for f in mine],
                         "exp": [f.f_code.co_name for f in lv], "all": [[f.funcname, f.hide] for f in st.frames]})
+        bridge_codes = [getattr(getattr(greenback._impl, nm, None), "__code__", None)
+                        for nm in ("_greenback_shim", "_greenback_shim_sync", "trampoline")]
         for f in st.frames:
             if f.pyframe.f_code is greenback.await_.__code__ and not f.hide:
                 obs.append({"kind": "await_bridge_not_hidden", "tag": tag})
+            if f.pyframe.f_code in bridge_codes and not f.hide:
+                # the generator / trampoline that IS the portal, wherever in the stack it sits and from wherever one looks
+                obs.append({"kind": "bridging_internal_not_hidden", "tag": tag, "frame": f.funcname})
         obs.extend(_bridging_hidden(st, tag))
     if out["warnings"]:
         obs.append({"kind": "warnings", "msgs": out["warnings"]})
